@@ -1,5 +1,6 @@
 import TabulaModel.Lemmas.Html
 import TabulaModel.Lemmas.Traverse
+import TabulaModel.Lemmas.HtmlRepair
 /-!
 # C19 — HTML extraction keeps content; navigation filtering only narrows
 
@@ -144,12 +145,20 @@ def atomText : Atom → Str
   | .heading _ t => t | .para t => t | .item _ t => t | .cell c => c.text | .code t => t | .quote t => t
 
 /-
-Full statement (does NOT hold for the pinned code): for every content element that is
-neither skipped nor excluded, every text node inside it (outside script/style) occurs
-in exactly one returned atom, atoms being in document order. It fails for a p (or div)
-that has a block-level child: the traversal only descends into it and the element's own
-text is never returned (`content_once_in_order_counterexample`; known finding
-C19/content-missing-para-with-block-child). What is proved:
+Full statement (does NOT hold for the code, before or after fix 75d57dc): for every content
+element that is neither skipped nor excluded, every text node inside it (outside script/style)
+occurs in exactly one returned atom, atoms being in document order.
+
+Before fix 75d57dc it failed for every p (or div) that has a block-level child: the traversal
+only descended into it and the element's own text was never returned
+(`content_once_in_order_pinned_counterexample`, about the old traversal `travOld`; finding
+C19/content-missing-para-with-block-child, repaired).  Since the fix such a p/div returns its
+own text — `paragraph_own_text_kept` below is that statement in full, for every tree.  What is
+left: a child of such a paragraph that is neither inline content nor a content element itself — a
+wrapper (span, a, form, section, …) around a block-level element — is traversed like a wrapper
+anywhere else, and the wrapper's own direct text is returned by nothing
+(`content_once_in_order_counterexample`; finding C19/content-missing-para-in-wrapper).  What is
+proved:
 -/
 /-- (1) siblings contribute exactly one contiguous segment each, in sibling order;
 (2) inside an element's text every text node occurs once, in document order;
@@ -192,15 +201,101 @@ theorem content_once_in_order_partial (p : Pos → Dom → Bool) (w : Bool) (kp 
 example : isSkip T.p = false ∧ classify T.p = .pdiv true ∧ isBlockContainer [.text [120]] = false ∧
     trim (getTextContent (.elem T.p [] [.text [120]])) ≠ [] := by decide
 
+/-- THE REPAIRED FINDING, in full (fix 75d57dc; for every tree, predicate, position and list
+context): a p/div that has a block-level child and is neither skipped nor excluded returns its
+own text.  Its children are read in document order (`atomsM`):
+(1) a maximal run `a` of inline children — text nodes, inline elements, anything that neither is
+    nor contains an element the traversal handles itself — followed by another child `k` gives
+    ONE paragraph carrying the text of all of `a` (`textRecL a`: by `text_nodes_once_in_order`
+    every text node of `a` once, in document order), then the atoms of `k`, then the rest with a
+    fresh run; a blank run gives nothing;
+(2) a trailing run gives one paragraph in the same way;
+(3) nothing is returned twice: an inline child, were it traversed, would contribute no atom
+    (so its text is in the run's paragraph and nowhere else), and a child that is not inline is in
+    no run. -/
+theorem paragraph_own_text_kept (p : Pos → Dom → Bool) (w : Bool) (pos : Pos) (lc : LC)
+    (tag : Str) (attrs : List (Str × Str)) (kids : List Dom) (isP : Bool)
+    (hs : isSkip tag = false) (hp : p pos (.elem tag attrs kids) = false)
+    (hc : classify tag = .pdiv isP) (hb : isBlockContainer kids = true) :
+    atoms p w pos lc (.elem tag attrs kids) = atomsM p w (pos.kid w tag) lc kids [] ∧
+    (∀ (a rest : List Dom) (k : Dom) (run : Str), isInlineL a = true → isInline k = false →
+      atomsM p w (pos.kid w tag) lc (a ++ k :: rest) run =
+        runAtoms (run ++ textRecL a) ++ atoms p w (pos.kid w tag) lc k ++ atomsM p w (pos.kid w tag) lc rest []) ∧
+    (∀ (a : List Dom) (run : Str), isInlineL a = true →
+      atomsM p w (pos.kid w tag) lc a run = runAtoms (run ++ textRecL a)) ∧
+    (∀ run, trim run ≠ [] → runAtoms run = [.para (trim run)]) ∧
+    (∀ run, trim run = [] → runAtoms run = []) ∧
+    (∀ k, isInline k = true → atoms p w (pos.kid w tag) lc k = []) := by
+  refine ⟨?_, ?_, ?_, ?_, ?_, ?_⟩
+  · unfold atoms; simp only [hs, hp, hc, Bool.false_eq_true, if_false]; simp [hb]
+  · intro a rest k run ha hk
+    rw [atomsM_inline p w _ lc a (k :: rest) run ha, atomsM_block p w _ lc k rest _ hk]
+  · intro a run ha
+    have := atomsM_inline p w (pos.kid w tag) lc a [] run ha
+    simpa [atomsM] using this
+  · intro run h; simp [runAtoms, h]
+  · intro run h; simp [runAtoms, h]
+  · intro k hk; exact atoms_inline p w k _ lc hk
+
+example : isSkip T.div = false ∧ classify T.div = .pdiv false ∧
+    isBlockContainer [.text [120], .elem T.p [] [.text [121]]] = true ∧
+    isInlineL [.text [120]] = true ∧ isInline (.elem T.p [] [.text [121]]) = false := by decide
+
 /-- witness `<p>x<table><tr><td>c</td></tr></table></p>` (quirks-mode parse) -/
 def witnessPTable : Dom :=
   .elem [98, 111, 100, 121] []
     [.elem T.p [] [.text [120], .elem T.table [] [.elem T.tbody [] [.elem T.tr [] [.elem T.td [] [.text [99]]]]]]]
 
-/-- the paragraph's own text "x" is in no returned atom, in any mode -/
+/-- BEFORE fix 75d57dc (the old traversal `travOld`, Model/HtmlOld.lean): the paragraph's own
+text "x" was in no returned atom, in any mode -/
+theorem content_once_in_order_pinned_counterexample :
+    flatten (extractOld .none witnessPTable) = [.cell ⟨[99], false, 1, 1⟩] ∧
+    ¬ ∃ a, a ∈ flatten (extractOld .none witnessPTable) ∧ 120 ∈ atomText a := by
+  decide +kernel
+
+/-- since the fix it is a paragraph of its own, before the table, in every mode -/
+theorem content_once_in_order_repaired_witness :
+    flatten (extract .none witnessPTable) = [.para [120], .cell ⟨[99], false, 1, 1⟩] ∧
+    flatten (extract .aggressive witnessPTable) = [.para [120], .cell ⟨[99], false, 1, 1⟩] := by
+  decide +kernel
+
+/-- `span` is not one of the tags the traversal knows: it is only traversed -/
+def tagSpan : Str := [115, 112, 97, 110]
+
+/-- witness `<p>x<table><tr><td>c</td></tr></table><span>y<table><tr><td>d</td></tr></table></span></p>`
+(quirks-mode parse: neither table closes the p) -/
+def witnessPWrapper : Dom :=
+  .elem [98, 111, 100, 121] []
+    [.elem T.p []
+      [.text [120],
+       .elem T.table [] [.elem T.tbody [] [.elem T.tr [] [.elem T.td [] [.text [99]]]]],
+       .elem tagSpan [] [.text [121],
+         .elem T.table [] [.elem T.tbody [] [.elem T.tr [] [.elem T.td [] [.text [100]]]]]]]]
+
+/-- witness `<p>x<table><section>y<div>z</div></section><tr><td>c</td></tr></table></p>` (quirks-mode
+parse; the section is foster-parented in front of the table, inside the p) -/
+def witnessPSection : Dom :=
+  .elem [98, 111, 100, 121] []
+    [.elem T.p []
+      [.text [120],
+       .elem T.section [] [.text [121], .elem T.div [] [.text [122]]],
+       .elem T.table [] [.elem T.tbody [] [.elem T.tr [] [.elem T.td [] [.text [99]]]]]]]
+
+/-- what is left (finding C19/content-missing-para-in-wrapper): the paragraph's own "x" is
+returned, but the "y" that sits in a wrapper around a table inside the paragraph is in no
+returned atom, in any mode: the span is neither inline content (it holds a table) nor a content
+element, so it is traversed, and a traversed element's direct text is returned by nothing -/
 theorem content_once_in_order_counterexample :
-    flatten (extract .none witnessPTable) = [.cell ⟨[99], false, 1, 1⟩] ∧
-    ¬ ∃ a, a ∈ flatten (extract .none witnessPTable) ∧ 120 ∈ atomText a := by
+    flatten (extract .none witnessPWrapper) =
+      [.para [120], .cell ⟨[99], false, 1, 1⟩, .cell ⟨[100], false, 1, 1⟩] ∧
+    ¬ ∃ a, a ∈ flatten (extract .none witnessPWrapper) ∧ 121 ∈ atomText a := by
+  decide +kernel
+
+/-- … the same for a sectioning element inside the paragraph: its own "y" is lost, the div inside
+it is returned -/
+theorem content_once_in_order_counterexample_section :
+    flatten (extract .none witnessPSection) = [.para [120], .para [122], .cell ⟨[99], false, 1, 1⟩] ∧
+    ¬ ∃ a, a ∈ flatten (extract .none witnessPSection) ∧ 121 ∈ atomText a := by
   decide +kernel
 
 /-! ## the per-mode cache -/
